@@ -729,7 +729,9 @@ def validate_info(rng, n, res):
         stats[rq["fn"]] += 1
         stats["accepted"] += bool(real)
         if isinstance(real, dict):
-            if "err" in real or "err" in lv:
+            if "ok" not in lv and "err" not in lv:
+                agree = False       # the validation driver does not know the function (it could not be rebuilt)
+            elif "err" in real or "err" in lv:
                 agree = real.get("err") == lv.get("err")
             elif rq["fn"] == "Input_exchange_info":
                 agree = lv["ok"] is True and real["ok"] is True
